@@ -11,6 +11,7 @@ const RuntimeFile = `package main
 
 import (
 	"bufio"
+	"errors"
 	"fmt"
 	"os"
 	"reflect"
@@ -36,6 +37,9 @@ func vfnB(xs ...int) { _ = xs }
 
 var chA = make(chan int, 1)
 var chB = make(chan int, 2)
+
+var errA = errors.New("error A")
+var errB = errors.New("error B")
 
 type fieldSpec struct {
 	name     string
